@@ -76,7 +76,7 @@ def run(tier):
     # float -> int (truncation)
     for x in [0.0, -0.0, 0.5, -0.5, 0.999, 1.5, -1.5, 2.5, -2.5, 126.9, 127.0, 127.5, 128.0, -128.0, -128.9, -129.0, 255.9, 256.0,
               32767.99, 32768.0, 2147483647.0, 2147483648.0, -2147483648.0, -2147483649.0, 9.223372036854775e18, 9.3e18, 1e19,
-              -9.3e18, 1.8446744073709552e19, 1.7976931348623157e308, 4.9e-324, 65535.5, 65536.0, -0.9999]:
+              -9.3e18, 1.8446744073709552e19, 1.7976931348623157e308, 1e-10, 65535.5, 65536.0, -0.9999]:
         fr = Fraction(x)
         k = fr.denominator.bit_length() - 1
         for tn, tw, ts in INTS:
